@@ -3,6 +3,7 @@ package props
 import (
 	"encoding/json"
 	"fmt"
+	"math"
 	"os"
 
 	"verifharness/mon"
@@ -33,6 +34,45 @@ type findingsFile struct {
 // predicates decide whether a violation's arguments fall inside a known
 // finding's (narrow) argument set.
 var predicates = map[string]func(v *mon.Violation, f *Finding) bool{
+	// the first Decimal operand is finite, non-zero, negative, and the decimal
+	// exponent of its leading digit is at most params.lead_max
+	"neg_operand_lead_le": func(v *mon.Violation, f *Finding) bool {
+		n, ok := operand(&v.Case, 0)
+		lm, ok2 := f.Params["lead_max"].(float64)
+		return ok && ok2 && n.Class == ref.Finite && !n.IsZero() && n.Neg && ref.NumDigits(n.Coef)-1+n.Exp <= int(lm)
+	},
+	// Expm1 cancellation (R18): the operand is negative with |x| < 1; with
+	// |x| ~ 10^-k the 57-digit subtraction 1/(1+a) - 1 keeps 57-k digits, an
+	// error of about 10^(k-23) units in the last place. For k >= 22 nothing
+	// is guaranteed; for smaller k only an excess of at most 10^(k-22) units
+	// over the tolerance (which can only show under directed modes) matches.
+	"expm1_negative_cancellation": func(v *mon.Violation, f *Finding) bool {
+		n, ok := operand(&v.Case, 0)
+		if !ok || n.Class != ref.Finite || n.IsZero() || !n.Neg {
+			return false
+		}
+		k := -(ref.NumDigits(n.Coef) - 1 + n.Exp)
+		if k >= 22 {
+			return true
+		}
+		if v.Kind != "accuracy" || k < 1 || v.Metric <= 0 {
+			return false
+		}
+		return v.Metric <= math.Pow(10, float64(k-22))
+	},
+	// the first Decimal operand is finite, non-zero, and the decimal exponent
+	// of its leading digit is at most params.lead_max
+	"operand_lead_le": func(v *mon.Violation, f *Finding) bool {
+		n, ok := operand(&v.Case, 0)
+		lm, ok2 := f.Params["lead_max"].(float64)
+		return ok && ok2 && n.Class == ref.Finite && !n.IsZero() && ref.NumDigits(n.Coef)-1+n.Exp <= int(lm)
+	},
+	// the call ran under a directed DefaultRoundingMode and the error exceeds
+	// the tolerance by at most params.max_excess (in units of the tolerance)
+	"directed_mode_small_excess": func(v *mon.Violation, f *Finding) bool {
+		me, ok := f.Params["max_excess"].(float64)
+		return ok && v.Case.Def >= 2 && v.Case.Def <= 5 && v.Metric > 0 && v.Metric <= me
+	},
 	// the first Decimal operand is a negative zero (any exponent)
 	"operand0_is_negative_zero": func(v *mon.Violation, f *Finding) bool {
 		n, ok := operand(&v.Case, 0)
@@ -91,19 +131,22 @@ func contains(xs []string, s string) bool {
 	return false
 }
 
-func markKnown(res *mon.Result) {
+// installClassifier loads the committed findings and installs the matcher
+// that Shard.Violate consults.
+func installClassifier(prop string) error {
 	fs, err := loadFindings()
 	if err != nil {
-		res.Internal = err.Error()
-		return
+		return err
 	}
-	for i := range res.Violations {
-		v := &res.Violations[i]
-		for j := range fs {
-			f := &fs[j]
-			if f.Status != "open" || f.Property != res.Prop {
-				continue
-			}
+	var open []Finding
+	for _, f := range fs {
+		if f.Status == "open" && f.Property == prop {
+			open = append(open, f)
+		}
+	}
+	mon.Classifier = func(v *mon.Violation) string {
+		for j := range open {
+			f := &open[j]
 			if len(f.Ops) > 0 && !contains(f.Ops, v.Case.Op) {
 				continue
 			}
@@ -115,11 +158,12 @@ func markKnown(res *mon.Result) {
 				continue // unknown predicate matches nothing
 			}
 			if p(v, f) {
-				v.Known = f.ID
-				break
+				return f.ID
 			}
 		}
+		return ""
 	}
+	return nil
 }
 
 // operand decodes the i-th Decimal operand of a case.
